@@ -1,5 +1,6 @@
 """C12 - Array subscripts address distinct elements within declared bounds."""
 import itertools
+import struct
 
 from vlib import core
 from harness import common
@@ -57,6 +58,19 @@ class C12(core.Check):
                                        ['dim', [[long + '%', [2, 1]]]], ['set', long + '%', [2, 1], -2],
                                        ['get', long + '%', [2, 1]], ['dim', [['X', []]]], ['dim', [['X', [-1]]]],
                                        ['clear'], ['get', long + '%', [2, 1]]]})
+        # one DIM statement dimensions its arrays one by one, left to right: a later bound may read an element
+        # of an earlier array; when a later item fails while its bound is evaluated (Overflow, Type mismatch)
+        # the earlier arrays stay dimensioned with their declared bounds (seed C12e)
+        c.append({'k': 'hist', 'ops': [['dimx', [['N%', [20]], ['M%', [['el', 'N%', [20], 12]]]]],
+                                       ['set', 'N%', [20], 5], ['set', 'M%', [12], 3], ['get', 'N%', [20]],
+                                       ['get', 'M%', [12]], ['get', 'M%', [13]]]})
+        c.append({'k': 'hist', 'ops': [['dimx', [['A', [20]], ['B', [['ovf']]]]], ['set', 'A', [15], [1, 2, 3, 129]],
+                                       ['get', 'A', [20]], ['get', 'A', [21]], ['dim', [['A', [5]]]],
+                                       ['erase', ['A']], ['dim', [['A', [5]]]], ['get', 'A', [5]], ['get', 'B', [11]]]})
+        c.append({'k': 'hist', 'ops': [['dimx', [['C%', [12, 1]], ['D$', [3, ['tm']]], ['A%', [1]]]],
+                                       ['get', 'C%', [12, 1]], ['get', 'A%', [10]],
+                                       ['dimx', [['X.1$', [['el', 'Q%', [3], 2]]], ['AB%', [['el', 'Q%', [11], 0]]]]],
+                                       ['get', 'X.1$', [2]], ['get', 'Q%', [10]], ['get', 'AB%', [0]]]})
         c.append(self.shape_case(None, 'A%', [2, 3]))
         c.append(self.shape_case(1, 'B!', [1, 1, 1]))
         c.append(self.shape_case(1, 'B$', [2, 0]))
@@ -167,6 +181,33 @@ class C12(core.Check):
                 ops.append(['base', rng.choice([0, 1])])
             elif r < 0.29:
                 ops.append(['clear'])
+            elif r < 0.35:
+                # DIM of several arrays with bound expressions (constants, element reads, failing items)
+                ints = [a for a in self.NAMES if a.endswith('%')]
+                items = []
+                for _k in range(rng.choice([2, 2, 3])):
+                    a = rng.choice(names)
+                    bs = []
+                    for _j in range(rng.choice([1, 1, 2])):
+                        q = rng.random()
+                        if q < 0.7:
+                            bs.append(rng.choice([0, 1, 2, 3, 5, 10, 11, 12, 15, 20]))
+                        elif q < 0.88:
+                            prev = [it for it in items if it[0].endswith('%') and all(isinstance(x, int) for x in it[1])]
+                            if prev and rng.random() < 0.7:
+                                src, sidx = prev[-1][0], list(prev[-1][1])
+                            else:
+                                src = rng.choice(ints)
+                                sidx = index(ranks.setdefault(src, 1))
+                            bs.append(['el', src, sidx, rng.choice([0, 2, 12])])
+                        else:
+                            bs.append([rng.choice(['ovf', 'ovf', 'tm'])])
+                    ranks[a] = len(bs)
+                    items.append([a, bs])
+                ops.append(['dimx', items])
+                for a, bs in items:
+                    if all(isinstance(x, int) for x in bs) and rng.random() < 0.8:
+                        ops.append(['get', a, list(bs)])
             elif r < 0.65:
                 rk = ranks.setdefault(nm, rng.choice([1, 1, 2, 3]))
                 counter[0] += 1
@@ -225,6 +266,50 @@ class C12(core.Check):
     def ops_of(self, case):
         return self.shape_ops(case) if case['k'] == 'shape' else case['ops']
 
+    # ------------------------------------------------------------------ DIM with bound expressions
+    # ['dimx', [[name, [bound, ...]], ...]] is ONE statement DIM a(b1,b2), c(b3), ...; a bound is an int,
+    # ['el', name, idx, add] (the expression name(idx)+add, reading an integer array element),
+    # ['ovf'] (40000: Overflow when the bound is evaluated) or ['tm'] ("x": Type mismatch).
+    @staticmethod
+    def bound_text(b):
+        if isinstance(b, int):
+            return str(b)
+        if b[0] == 'el':
+            return '%s%s+%d' % (b[1], au.subs(b[2]), b[3])
+        return '40000' if b[0] == 'ovf' else '"x"'
+
+    def dimx_text(self, op):
+        return 'DIM ' + ','.join('%s(%s)' % (nm, ','.join(self.bound_text(b) for b in bs)) for nm, bs in op[1])
+
+    @staticmethod
+    def dimx_seq(op, ref, free):
+        """The statement under the language rule 'each array is dimensioned before the bounds of the next one
+        are evaluated': the primitive operations it performs on the reference `ref` (which is updated), the
+        evaluation error that ends it (or None) and its error number."""
+        sub = []
+        for nm, bs in op[1]:
+            vals = []
+            for b in bs:
+                if isinstance(b, int):
+                    vals.append(b)
+                elif b[0] == 'el':
+                    sub.append(['get', b[1], b[2]])
+                    e, by = ref.get(au.complete(b[1]), b[2], free)
+                    if e:
+                        return sub, None, e
+                    v = struct.unpack('<h', bytes(by))[0] + b[3]
+                    if not -32768 <= v <= 32767:
+                        return sub, 6, 6
+                    vals.append(v)
+                else:
+                    e = 6 if b[0] == 'ovf' else 13
+                    return sub, e, e
+            sub.append(['dim', [[nm, vals]]])
+            e = ref.dim(au.complete(nm), vals, free)
+            if e:
+                return sub, None, e
+        return sub, None, 0
+
     # ------------------------------------------------------------------ implementation
     def trace(self, case):
         key = core.sha(case)
@@ -244,6 +329,8 @@ class C12(core.Check):
                 kind = op[0]
                 if kind == 'dim':
                     err, _ = self.sess.run('DIM ' + ','.join(nm + (au.subs(d) if d else '') for nm, d in op[1]))
+                elif kind == 'dimx':
+                    err, _ = self.sess.run(self.dimx_text(op))
                 elif kind == 'erase':
                     err, _ = self.sess.run('ERASE ' + ','.join(op[1]))
                 elif kind == 'base':
@@ -284,29 +371,61 @@ class C12(core.Check):
         return out + shape
 
     # ------------------------------------------------------------------ model
+    def prim_term(self, op, free, b):
+        kind = op[0]
+        z = core.zl([free])[1:-1]
+        if kind == 'dim':
+            return 'ODim %s [%s]' % (z, ';'.join('(%s,%s)' % (au.cname(nm), au.czl(d)) for nm, d in op[1]))
+        if kind == 'erase':
+            return 'OErase [%s]' % ';'.join(au.cname(nm) for nm in op[1])
+        if kind == 'base':
+            return 'OBase %d' % op[1]
+        if kind == 'clear':
+            return 'OClear'
+        if kind == 'set':
+            nm, idx, val = op[1], op[2], op[3]
+            v = au.value_bytes(nm, val)
+            if v is None:
+                v = b if b is not None else [0, 0, 0]      # string descriptor: opaque, as stored
+            return 'OSet %s %s %s %s' % (z, au.cname(nm), au.czl(idx), au.czl(v))
+        return 'OGet %s %s %s' % (z, au.cname(op[1]), au.czl(op[2]))
+
     def model_term(self, case):
         tr, _ = self.trace(case)
         terms = []
+        ref = au.RefArrays()      # only to decompose DIM statements with bound expressions
         for op, (err, free, b, text) in zip(self.ops_of(case), tr):
-            kind = op[0]
-            if kind == 'dim':
-                terms.append('ODim %s [%s]' % (core.zl([free])[1:-1], ';'.join(
-                    '(%s,%s)' % (au.cname(nm), au.czl(d)) for nm, d in op[1])))
-            elif kind == 'erase':
-                terms.append('OErase [%s]' % ';'.join(au.cname(nm) for nm in op[1]))
-            elif kind == 'base':
-                terms.append('OBase %d' % op[1])
-            elif kind == 'clear':
-                terms.append('OClear')
-            elif kind == 'set':
-                nm, idx, val = op[1], op[2], op[3]
-                v = au.value_bytes(nm, val)
-                if v is None:
-                    v = b if b is not None else [0, 0, 0]      # string descriptor: opaque, as stored
-                terms.append('OSet %s %s %s %s' % (core.zl([free])[1:-1], au.cname(nm), au.czl(idx), au.czl(v)))
+            if op[0] == 'dimx':
+                sub, tail, _ = self.dimx_seq(op, ref, free)
+                terms.append('XSeq [%s] %s' % (';'.join(self.prim_term(o, free, None) for o in sub),
+                                               'None' if tail is None else '(Some %d)' % tail))
             else:
-                terms.append('OGet %s %s %s' % (core.zl([free])[1:-1], au.cname(op[1]), au.czl(op[2])))
-        return '(let ops := [%s] in enc_outs (arun a_init ops) ++ enc_shape (afinal a_init ops))' % ';\n'.join(terms)
+                self.ref_step(ref, op, free, b)
+                terms.append('XOp (%s)' % self.prim_term(op, free, b))
+        return '(let xs := [%s] in enc_outs (xrun a_init xs) ++ enc_shape (xfinal a_init xs))' % ';\n'.join(terms)
+
+    @staticmethod
+    def ref_step(ref, op, free, b):
+        """apply a primitive operation to the reference; returns (error, bytes)"""
+        kind = op[0]
+        if kind == 'dim':
+            for nm, d in op[1]:
+                e = ref.dim(au.complete(nm), d, free)
+                if e:
+                    return e, None
+            return 0, None
+        if kind == 'erase':
+            return ref.erase([au.complete(nm) for nm in op[1]]), None
+        if kind == 'base':
+            return ref.option_base(op[1]), None
+        if kind == 'clear':
+            ref.clear()
+            return 0, None
+        if kind == 'set':
+            nm, idx, val = au.complete(op[1]), op[2], op[3]
+            v = au.value_bytes(nm, val)
+            return ref.set(nm, idx, v if v is not None else (b or [0, 0, 0]), free), None
+        return ref.get(au.complete(op[1]), op[2], free)
 
     # ------------------------------------------------------------------ oracle
     def oracle(self, case, out):
@@ -317,29 +436,16 @@ class C12(core.Check):
         for step, (op, (err, free, b, text)) in enumerate(zip(self.ops_of(case), tr)):
             kind = op[0]
             exp_b = None
-            if kind == 'dim':
-                exp = 0
-                for nm, d in op[1]:
-                    exp = ref.dim(au.complete(nm), d, free)
-                    if exp:
-                        break
-            elif kind == 'erase':
-                exp = ref.erase([au.complete(nm) for nm in op[1]])
-            elif kind == 'base':
-                exp = ref.option_base(op[1])
-            elif kind == 'clear':
-                ref.clear()
-                texts = {}
-                exp = 0
-            elif kind == 'set':
-                nm, idx, val = au.complete(op[1]), op[2], op[3]
-                v = au.value_bytes(nm, val)
-                exp = ref.set(nm, idx, v if v is not None else (b or [0, 0, 0]), free)
-                if not exp:
-                    texts[(nm, tuple(idx))] = val
+            if kind == 'dimx':
+                _, _, exp = self.dimx_seq(op, ref, free)
             else:
-                nm, idx = au.complete(op[1]), op[2]
-                exp, exp_b = ref.get(nm, idx, free)
+                exp, exp_b = self.ref_step(ref, op, free, b)
+                if kind == 'clear':
+                    texts = {}
+                if kind == 'set' and not exp:
+                    texts[(au.complete(op[1]), tuple(op[2]))] = op[3]
+                if kind == 'get':
+                    nm, idx = au.complete(op[1]), op[2]
             texts = {k: v for k, v in texts.items() if k[0] in ref.shapes}
             if exp != err:
                 return 'step %d %r: error %d, the array rules give %d' % (step, op, err, exp)
